@@ -1484,6 +1484,19 @@ fn gen_stream_case(rng: &mut Rng, out: &mut Vec<String>, stats: &mut Stats) {
 					15 | 13 => format!("vol {} {}", gen_vol_value(rng, false), gen_tween(rng)),
 					16 => format!("pan {} {}", gen_pan_value(rng, false), gen_tween(rng)),
 					17 => gen_info_clocks(rng),
+					18 => {
+						// a quick toggle: both commands are read by the same on_start_processing
+						let a = format!("pause {}", gen_life_tween(rng, chunk_secs));
+						let b = format!("resume imm {}", gen_life_tween(rng, chunk_secs));
+						stats.hit("toggle_pair");
+						if rng.chance(1, 2) {
+							out.push(a);
+							b
+						} else {
+							out.push(b);
+							a
+						}
+					}
 					_ => format!("pause {}", gen_life_tween(rng, chunk_secs)),
 				};
 				stats.hit(line.split(' ').next().unwrap());
